@@ -276,9 +276,23 @@ Definition holds_b (s : state) (o : op) (ob : obs) : bool :=
 Definition declined (s : state) (o : op) : bool :=
   match run_op s o with Raise Unmodelled => true | _ => false end.
 
+(* what the driver evaluates per step: [agree; holds_b; in_domain; well-formed; follows the
+   specification; acyclicity kept; model declined]  (the shared sub-results are computed once) *)
 Definition check (s : state) (o : op) (ob : obs) : list bool :=
-  [agree s o ob && negb (declined s o && in_domain s o); holds_b s o ob; in_domain s o;
-   match ob with OOk ho go => holds_wf ho go | _ => false end;
-   match ob with OOk ho go => holds_spec s o ho go | _ => false end;
-   match ob with OOk ho go => holds_acyclic s o ho go | _ => false end;
-   declined s o].
+  let r := run_op s o in
+  let dom := in_domain s o in
+  let decl := match r with Raise Unmodelled => true | _ => false end in
+  let ag := match r, ob with
+            | Ok s', OOk ho go => state_eqb s' (ho, go)
+            | Raise Unmodelled, _ => true
+            | Raise e, ORaise e' => exn_eqb e e'
+            | _, _ => false
+            end in
+  match ob with
+  | OOk ho go =>
+      let w := holds_wf ho go in
+      let sp := holds_spec s o ho go in
+      let ac := holds_acyclic s o ho go in
+      [ag && negb (decl && dom); if dom then w && sp && ac else true; dom; w; sp; ac; decl]
+  | ORaise _ => [ag && negb (decl && dom); negb dom; dom; false; false; false; decl]
+  end.
